@@ -91,3 +91,30 @@ contract("monkeytype.cli:apply_stub_handler", props=["C15", "C13", "C10"], theor
          # the command fails only after a stub was obtained (import of the target module, file access, libcst): with nothing decodable it
          # must say "No traces found" and succeed
          raises={"HandlerError": "L_stub is not None", "ImportError": "L_stub is not None", "OSError": "L_stub is not None"})
+
+# ---- C16 / C15: which imports count as "newly introduced by the stub" (the rest of the source's imports must stay where they are)
+_O_SYM = "exists_v(lambda n: has(g_symbols({g}), n) and lookup(g_symbols({g}), n) is it)"
+_O_MOD = "exists_v(lambda m: has(g_modules({g}), m) and it is mk_item(m, None, None))"
+_O_MAL = "exists_v(lambda m: has(g_module_aliases({g}), m) and it is mk_item(m, None, lookup(g_module_aliases({g}), m)))"
+_O_OBJ = "exists(range_(0, {n}), lambda j: exists_v(lambda o: has(lookup(g_objects({g}), nth(g_objects({g}), j)), o) and it is mk_item(nth(g_objects({g}), j), o, None)))"
+_O_ALI = ("exists(range_(0, {n}), lambda j: exists(lookup(g_aliases({g}), nth(g_aliases({g}), j)), lambda pr: it is mk_item(nth(g_aliases({g}), j), nth(pr, 0), nth(pr, 1))))")
+_BASE = "(%s or %s or %s)" % (_O_SYM, _O_MOD, _O_MAL)
+_G = "gatherer"
+contract("monkeytype.cli:_all_import_items", props=["C16", "C15"], theories=["cst"],
+         params={"gatherer": "Gatherer"}, result="Set[Item]",
+         requires={"pairs": "forall_v(lambda m: implies(has(g_aliases(gatherer), m), forall(lookup(g_aliases(gatherer), m), lambda pr: len(pr) == 2)))"},
+         ensures={
+             # every import the visited module makes, in whichever of the gatherer's views it is recorded, is in the result ...
+             "post:symbols": "forall_v(lambda n: implies(has(g_symbols(gatherer), n), has(result, lookup(g_symbols(gatherer), n))))",
+             "post:modules": "forall_v(lambda m: implies(has(g_modules(gatherer), m), has(result, mk_item(m, None, None))))",
+             "post:module-aliases": "forall_v(lambda m: implies(has(g_module_aliases(gatherer), m), has(result, mk_item(m, None, lookup(g_module_aliases(gatherer), m)))))",
+             "post:objects": "forall_v(lambda m: implies(has(g_objects(gatherer), m), forall_v(lambda o: implies(has(lookup(g_objects(gatherer), m), o), has(result, mk_item(m, o, None))))))",
+             "post:aliases": "forall_v(lambda m: implies(has(g_aliases(gatherer), m), forall(lookup(g_aliases(gatherer), m), lambda pr: has(result, mk_item(m, nth(pr, 0), nth(pr, 1))))))",
+             # ... and nothing else is
+             "post:only": "forall_v(lambda it: implies(has(result, it), %s or %s or %s))" % (_BASE.format(g=_G), _O_OBJ.format(g=_G, n="len(g_objects(gatherer))"), _O_ALI.format(g=_G, n="len(g_aliases(gatherer))")),
+         },
+         loops={0: {"iter": "gatherer.object_mapping.items()",
+                    "inv": {"members": "forall_v(lambda it: has(items, it) == (%s or %s))" % (_BASE.format(g=_G), _O_OBJ.format(g=_G, n="_i"))}},
+                1: {"iter": "gatherer.alias_mapping.items()",
+                    "inv": {"members": "forall_v(lambda it: has(items, it) == (%s or %s or %s))" % (_BASE.format(g=_G), _O_OBJ.format(g=_G, n="len(g_objects(gatherer))"), _O_ALI.format(g=_G, n="_i"))}},
+                "tags": {"items": "Set[Item]"}})
